@@ -103,17 +103,35 @@ def run(run):
     no = defs_of(A, sbh, "next_operations")
     run.check("R1", len(no) == 1 and norm(no[0].value) == "[op_chunk, op_meta, ops.SUCCESS]", "base next-op set", key="_send_block_header|next-ops-base",
               where=sbh.loc(), message=f"next_operations starts as `{norm(no[0].value) if no else None}`")
-    apps = [c for c in find_calls(A, sbh, "append") if norm(c.func.value) == "next_operations"]
+    # what is added to the base set, per case (command is / is not ADVANCE) x (header is the block / a brother): every path to the chunked send is
+    # walked with those two tests decided; if / elif / nested spellings give the same table
     extra = {}
-    for c in apps:
-        for cn in gh.nodes_of(c):
-            extra[norm(c.args[0])] = sorted(f.text() for f in F.local(sbh, D, cn)
-                                            if f.text().startswith(("command ", "header_name ")))
-    run.check("R1", extra == {"ops.PARTIAL": ["command == self.CMD.ADVANCE"],
-                              "ops.BROTHER_LIST_META": ["command == self.CMD.ADVANCE", "header_name == 'block'"],
-                              "ops.HEADER_META": ["command == self.CMD.ADVANCE", "header_name == 'brother'"]},
-              "advance-only next ops", key="_send_block_header|next-ops-advance", where=sbh.loc(),
-              message=f"conditional next operations: {extra}")
+    for is_adv in (True, False):
+        for hn in ("block", "brother"):
+            def na_atom(e, adv=is_adv, hn=hn):
+                cp = cmp_parts(e)
+                if cp is None:
+                    return None
+                l, op, r = cp
+                if op in ("==", "!=") and norm(l) == "command" and norm(r).endswith("CMD.ADVANCE"):
+                    return (adv == (op == "=="), True)
+                if op in ("==", "!=") and norm(l) == "header_name" and isinstance(r, ast.Constant) and isinstance(r.value, str):
+                    return ((hn == r.value) == (op == "=="), True)
+                return None
+            added = set()
+            for c in ch[:1]:
+                for cn in gh.nodes_of(c):
+                    for lf in Walker(A, sbh, D, na_atom, max_leaves=600, max_steps=30000).walk(gh.entry, stops={cn}):
+                        if lf.kind != "stop":
+                            continue
+                        added.add(tuple(sorted(norm(v.args[0]) for k_, st_, v in lf.effects if k_ == "expr" and isinstance(v, ast.Call) and call_name(v) == "append"
+                                               and isinstance(st_.value, ast.Call) and isinstance(st_.value.func, ast.Attribute)
+                                               and norm(st_.value.func.value) == "next_operations" and len(v.args) == 1)))
+            extra[(is_adv, hn)] = sorted(added)
+    want_extra = {(True, "block"): [("ops.BROTHER_LIST_META", "ops.PARTIAL")], (True, "brother"): [("ops.HEADER_META", "ops.PARTIAL")],
+                  (False, "block"): [()], (False, "brother"): [()]}
+    run.check("R1", extra == want_extra, "advance-only next ops", key="_send_block_header|next-ops-advance", where=sbh.loc(),
+              message=f"conditional next operations by (command is ADVANCE, header kind): {extra}; expected {want_extra}")
     # contexts
     calls = find_calls(A, dbo, "_send_block_header")
     ctx = sorted((kwarg(c, "header_name").value, norm(kwarg(c, "block")), norm(kwarg(c, "op_meta")), norm(kwarg(c, "op_chunk"))) for c in calls)
@@ -161,20 +179,29 @@ def run(run):
              "request['brothers'] as they are.")
     loops = [n for n in ast.walk(dbo.node) if isinstance(n, ast.For)]
     its = sorted(norm(l.iter) for l in loops)
-    run.check("R3", its == ["enumerate(blocks, 1)", "enumerate(brother_list, 1)"], "loops over blocks and the block's brothers",
+    # the block loop counts the blocks from some start k (enumerate(blocks, k)); the brothers of a block are iterated front to back
+    blk_loops = [l for l in loops if isinstance(l.iter, ast.Call) and norm(l.iter.func) == "enumerate" and l.iter.args and norm(l.iter.args[0]) == "blocks"
+                 and (len(l.iter.args) == 1 or (len(l.iter.args) == 2 and isinstance(l.iter.args[1], ast.Constant) and isinstance(l.iter.args[1].value, int)))
+                 and isinstance(l.target, ast.Tuple) and len(l.target.elts) == 2 and all(isinstance(e, ast.Name) for e in l.target.elts)]
+    bro_loops = [l for l in loops if norm(l.iter) in ("enumerate(brother_list, 1)", "enumerate(brother_list)", "brother_list")]
+    run.check("R3", len(blk_loops) == 1 and len(bro_loops) == 1 and len(loops) == 2, "loops over blocks and the block's brothers",
               key="_do_block_operation|loops", where=dbo.loc(), message=f"loops iterate {its}")
+    BK = blk_loops[0].iter.args[1].value if blk_loops and len(blk_loops[0].iter.args) == 2 else 0
+    BC = blk_loops[0].target.elts[0].id if blk_loops else "block_number"
     for nm in ("blocks", "brothers"):
         run.check("R3", not PV.defs(dbo, D).get(nm), f"`{nm}` not reassigned in _do_block_operation", key=f"_do_block_operation|{nm}-reassigned",
                   where=dbo.loc(), message=f"`{nm}` is reassigned (re-ordered / filtered) inside _do_block_operation")
     bl = defs_of(A, dbo, "brother_list")
-    run.check("R3", len(bl) == 1 and norm(bl[0].value) == "brothers[block_number - 1]", "brothers of block i are brothers[i]",
+    from sa.canon import canon_sums
+    want_sel = canon_sums(f"brothers[{BC} - {BK}]") if BK else f"brothers[{BC}]"
+    run.check("R3", len(bl) == 1 and canon_sums(norm(bl[0].value)) == want_sel, "brothers of block i are brothers[i]",
               key="_do_block_operation|brother-selection", where=dbo.loc(),
               message=f"the brother list of a block is selected as `{norm(bl[0].value) if bl else None}`: if the device skips the brothers of some "
                       "block, a later block would be given another block's brothers")
-    for l in loops:
-        if norm(l.iter) == "enumerate(blocks, 1)":
-            run.check("R3", norm(l.target) == "(block_number, block)", "block_number counts from 1 with the block", key="_do_block_operation|enumerate-target",
-                      where=dbo.loc(l), message=f"block loop target is {norm(l.target)}")
+    for l in blk_loops:
+        stores_ = [x for b_ in l.body for x in ast.walk(b_) if isinstance(x, ast.Name) and isinstance(x.ctx, ast.Store) and x.id in (BC, l.target.elts[1].id)]
+        run.check("R3", not stores_, "the block counter and the block are not re-bound inside the loop", key="_do_block_operation|enumerate-target",
+                  where=dbo.loc(l), message=f"the block loop re-binds {sorted({x.id for x in stores_})}")
     for pc in protocol_classes(run):
         for mname, w in (("_advance_blockchain", "self.hsm2dongle.advance_blockchain(request['blocks'], request['brothers'])"),
                          ("_update_ancestor_block", "self.hsm2dongle.update_ancestor(request['blocks'])")):
@@ -344,8 +371,9 @@ def _block_loop_outcome(run, PV, D, dbo, g):
     run.rule("R8", "End of the operation: inside the per-block loop, after every exchange of a block (header, brother-list metadata, brothers) and before "
              "the next block is sent, the operation byte of the device's latest answer is tested for ops.SUCCESS -> return (True, OK_TOTAL) and (advance) "
              "ops.PARTIAL -> return (True, OK_PARTIAL); these are the only sources of OK_TOTAL / OK_PARTIAL.")
-    heads = [n for n in g.nodes if n.kind == "for" and isinstance(n.ast, ast.For) and norm(n.ast.iter) == "enumerate(blocks, 1)"]
-    run.require(len(heads) == 1, "_do_block_operation: the loop over enumerate(blocks, 1) was not identified")
+    heads = [n for n in g.nodes if n.kind == "for" and isinstance(n.ast, ast.For) and isinstance(n.ast.iter, ast.Call) and norm(n.ast.iter.func) == "enumerate"
+             and n.ast.iter.args and norm(n.ast.iter.args[0]) == "blocks"]
+    run.require(len(heads) == 1, "_do_block_operation: the loop over enumerate(blocks, ..) was not identified")
     H = heads[0]
     loop = H.ast
     inloop = {id(x) for st_ in loop.body for x in ast.walk(st_)}
@@ -428,7 +456,7 @@ def _brother_list_answer(run, PV, D, dbo, g, lay):
             return None
         l, op, r = cp
         lt, rt = _strip(norm(l)), _strip(norm(r))
-        cnt = ("brother_count", "len(brother_list)", "len(brothers[block_number - 1])")
+        cnt = ("brother_count", "len(brother_list)") + tuple(f"len({norm(d_.value)})" for d_ in defs_of(A, dbo, "brother_list") if d_.value is not None)
         if lt in cnt and isinstance(r, ast.Constant) and r.value == 0 and op in (">", "<=", "!=", "=="):
             return ("C", op in (">", "!="))
         if lt in cnt and isinstance(r, ast.Constant) and r.value == 1 and op in (">=", "<"):
